@@ -245,6 +245,11 @@ inductive UnitsArg where
   | qty (y : Loc)        -- the Quantity `y`
 deriving DecidableEq, Repr
 
+/- Reflected operators and number operands: `x + 2`, `2 + x`, `0 + x`, `1 * x`, builtin `sum([...])`
+   (= `((0 + x1) + x2) + …`) and `math.prod` first wrap the number (`other = Quantity(other)`, op `new`) and then
+   call `_add/_sub/_mul/_truediv` with the operands in the stated order: `n + x` is `[new, add n x]`, `x + n` is
+   `[new, add x n]`.  There is no short-cut for neutral elements in the library, hence none in the model:
+   `C07_result_new` says the result of every such call is a new quantity. -/
 inductive Op where
   | new (isArr hasErr : Bool) (f : Facts)     -- Quantity(number | list, 'unit', abse=…)
   | add (a b : Loc) (f : Facts)
